@@ -184,17 +184,18 @@ Record cfg := { heap_cap : N; snod_cap : N; soft_max : N;
   strict_names : bool;      (* linkToParent refuses empty names and names with a NUL byte *)
   canon_group_key : bool;   (* CreateGroup trims one trailing slash before parsing / registering *)
   rc_rollback_fix : bool;   (* writeV2RefCount also updates an existing RefCount message when the count is 1 *)
-  cycle_is_error : bool     (* reader: a link to an object that is being loaded is an error (true in the tree as it
-                               is); false = candidate repair notes/fixes/reader-link-to-enclosing-group.patch *)
+  cycle_is_error : bool;    (* reader: a link to an object that is being loaded is an error; false since
+                               8c0b97a "list a hard link that closes a cycle instead of failing to open the file" *)
+  check_first : bool        (* e5d916a: every creation runs checkLinkable (linkToParent without the two writes)
+                               before it allocates or writes anything *)
 }.
-(* the tree before any of the three repairs *)
+(* the tree before the repairs *)
 Definition base_cfg : cfg := {| heap_cap := 256; snod_cap := 32; soft_max := 244; max_depth := 1024;
-                                strict_names := false; canon_group_key := false; rc_rollback_fix := false; cycle_is_error := true |}.
-(* /repo as it is now: the three repairs are in (4d95b56 trailing slash, and the commits "reject empty link
-   names ...", "restore the stored reference count ..."); the tie does not use this definition, it reads
-   the switches from the source *)
+                                strict_names := false; canon_group_key := false; rc_rollback_fix := false; cycle_is_error := true; check_first := false |}.
+(* /repo as it is now (all repairs in: 4d95b56, 28810bd, 1b1a681, 8c0b97a, e5d916a); the tie does not use
+   this definition, it reads the switches from the source *)
 Definition go_cfg : cfg := {| heap_cap := 256; snod_cap := 32; soft_max := 244; max_depth := 1024;
-                              strict_names := true; canon_group_key := true; rc_rollback_fix := true; cycle_is_error := true |}.
+                              strict_names := true; canon_group_key := true; rc_rollback_fix := true; cycle_is_error := false; check_first := true |}.
 
 (* heap-level well-formedness of a link name: non-empty, no NUL byte *)
 Definition heap_name_ok (n : name) : bool :=
@@ -249,17 +250,24 @@ Definition link_to_parent (c : cfg) (w : wstate) (parent : path) (nm : name) (ch
     end
   end.
 
+(* checkLinkable: prepareLink alone (the error linkToParent would return), nothing is written *)
+Definition precheck (c : cfg) (w : wstate) (parent : path) (nm : name) : option err :=
+  if check_first c then
+    match snd (link_to_parent c w parent nm 0) with Err e => Some e | Ok => None end
+  else None.
+
 (* the parent check that CreateGroup / CreateHardLink / CreateSoftLink make before anything else *)
 Definition parent_registered (w : wstate) (parent : path) : bool :=
   is_root_parent parent || match plookup parent (groups w) with Some _ => true | None => false end.
 
-(* CreateGroup: validate; parsePath; parent check; createGroupStructures (heap, SNOD, B-tree written
+(* CreateGroup: validate; parsePath; parent check; checkLinkable; createGroupStructures (heap, SNOD, B-tree written
    at fresh addresses) and the object header; linkToParent; only then fw.groups[path] (raw path!). *)
 Definition create_group (c : cfg) (w : wstate) (p0 : path) : wstate * result :=
   if negb (validate_group_path p0) then (w, Err EInvalidPath) else
   let p := if canon_group_key c then trim_suffix_slash p0 else p0 in
   let '(parent, nm) := parse_path p in
   if negb (parent_registered w parent) then (w, Err ENoParent) else
+  match precheck c w parent nm with Some e => (w, Err e) | None =>
   let id := clock w in
   let w1 := set_heaps w (aset id (snd (write_to (new_local_heap (heap_cap c)))) (heaps w)) in
   let w2 := set_snods w1 (aset id (snod_write_at (new_snod (snod_cap c)) (snod_cap c)) (snods w1)) in
@@ -267,16 +275,17 @@ Definition create_group (c : cfg) (w : wstate) (p0 : path) : wstate * result :=
   match link_to_parent c w3 parent nm id with
   | (w4, Ok) => (set_groups w4 (pset p id (groups w4)), Ok)
   | (w4, Err e) => (w4, Err e)
-  end.
+  end end.
 
 (* CreateDataset (dtype/dims valid): validateDatasetName; data + object header allocated and written;
    parsePath; linkToParent (which is where a missing parent is detected) *)
 Definition create_dataset (c : cfg) (w : wstate) (p : path) : wstate * result :=
   if negb (validate_dataset_name p) then (w, Err EInvalidPath) else
+  let '(parent, nm) := parse_path p in
+  match precheck c w parent nm with Some e => (w, Err e) | None =>
   let id := clock w in
   let w1 := set_objects w (aset id {| o_kind := KData; o_rcmsg := None |} (objects w)) in
-  let '(parent, nm) := parse_path p in
-  link_to_parent c w1 parent nm id.
+  link_to_parent c w1 parent nm id end.
 
 (* resolveObjectAddress *)
 Definition resolve_object_address (w : wstate) (q : path) : option N :=
@@ -313,6 +322,7 @@ Definition create_hard_link (c : cfg) (w : wstate) (p q : path) : wstate * resul
     match alookup t (objects w) with
     | None => (w, Err EIO)
     | Some o =>
+        match precheck c w parent nm with Some e => (w, Err e) | None =>
         let rc1 := wrap32 (refcount o + 1) in
         let o1 := write_refcount c o rc1 in
         let w1 := set_objects w (aset t o1 (objects w)) in
@@ -321,7 +331,7 @@ Definition create_hard_link (c : cfg) (w : wstate) (p q : path) : wstate * resul
         | (w2, Err e) =>
             let rc2 := if 0 <? rc1 then rc1 - 1 else rc1 in
             (set_objects w2 (aset t (write_refcount c o1 rc2) (objects w2)), Err e)
-        end
+        end end
     end
   end.
 
@@ -334,9 +344,10 @@ Definition create_soft_link (c : cfg) (w : wstate) (p q : path) : wstate * resul
   let '(parent, nm) := parse_path p in
   if negb (parent_registered w parent) then (w, Err ENoParent) else
   if soft_max c <? blen nm + blen q then (w, Err ETooLong) else
+  match precheck c w parent nm with Some e => (w, Err e) | None =>
   let id := clock w in
   let w1 := set_objects w (aset id {| o_kind := KSoft; o_rcmsg := None |} (objects w)) in
-  link_to_parent c w1 parent nm id.
+  link_to_parent c w1 parent nm id end.
 
 Definition step_body (c : cfg) (w : wstate) (o : op) : wstate * result :=
   match o with
